@@ -69,7 +69,7 @@ NESTED_ATOMS = [
     ("n_tuple", "nested-options", "Uniform((1, Range(0, 1)), (2, DiscreteRange(0, 1)), 3)", "lattice", False),
     ("n_arith", "derived", "DiscreteRange(250, 255) + 1000 * Uniform(0, 1)", "exact", True),
     ("n_func", "derived", "max(DiscreteRange(0, 2), Uniform(1, 3))", "exact", True),
-    ("n_index", "derived", "[10, 20, 30][DiscreteRange(0, 2)]", "exact", True),
+    ("n_index", "derived", "Uniform([10, 20], [30, 40])[DiscreteRange(0, 1)]", "exact", True),
     ("n_vec", "vector", "Range(0, 1) @ DiscreteRange(2, 3)", "lattice", False),
     ("n_vec3", "vector", "(Range(0, 1), 2, DiscreteRange(0, 2))", "lattice", False),
     ("n_star", "starred-options", "Uniform(*Uniform([1, 2], [3, 4, 5]))", "exact", True),
@@ -100,7 +100,7 @@ def _atom_programs(atoms, slots):
         for sname, tmpl, numonly in slots:
             if numonly and not numeric:
                 continue
-            if sname == "twice" and aname in ("c_many", "f_dep", "n_wdict", "n_mix", "n_tuple", "n_vec", "n_vec3", "f_normal_dep"):
+            if sname == "twice" and aname in ("c_many", "n_width", "n_deep", "f_dep", "n_wdict", "n_mix", "n_tuple", "n_vec", "n_vec3", "f_normal_dep"):
                 continue  # squares the number of scenes
             if sname == "pos" and aname in ("f_top", "f_huge", "i_big", "i_p63", "i_n63"):
                 continue  # positions beyond what the geometry code is specified for
@@ -114,18 +114,17 @@ def _atom_programs(atoms, slots):
 OBJECT_PROGRAMS = [
     ("o_at2", "vector", "ego = new Object at Range(3, 5) @ DiscreteRange(2, 3)\n", "lattice", {}),
     ("o_simple", "objects", 'ego = new Object at Range(3, 5) @ 2, with foo Uniform("zoggle", "buggle"), with name "egoObject"\n'
-     'new Object at 10 @ 10, facing toward ego, with foo Options({Range(1, 2): 1, Range(3, 4): 2}), with name "other"\n'
+     'new Object at 10 @ 10, facing toward ego, with foo Options({DiscreteRange(1, 2): 1, Range(3, 4): 2}), with name "other"\n'
      "param qux = ego.position\n", "lattice", {}),
     ("o_rect", "point-in-region", "ego = new Object in RectangularRegion(0 @ 0, 0, 4, 6)\n", "lattice", {}),
     ("o_circ", "point-in-region", "ego = new Object in CircularRegion(0 @ 0, 5)\n", "lattice", {}),
-    ("o_workspace", "point-in-region", "workspace = Workspace(RectangularRegion(0 @ 0, 0, 20, 20))\nego = new Object in RectangularRegion(0 @ 0, 0, 40, 6)\n", "lattice", {}),
+    ("o_workspace", "point-in-region", "workspace = Workspace(RectangularRegion(0 @ 0, 0, 20, 20))\nego = new Object in RectangularRegion(0 @ 0, 0, 40, 6)\n", "seeds", {}),  # rejection loop inside a triangle
     ("o_box", "point-in-region", "ego = new Object in BoxRegion(dimensions=(5, 5, 5))\n", "seeds", {"no2D": True}),
     ("o_face3", "orientation", "ego = new Object facing (Range(0, 360) deg, DiscreteRange(0, 2) * 10 deg, Uniform(0, 5) deg)\n", "lattice", {"no2D": True}),
     ("o_face", "orientation", "ego = new Object facing Uniform(0, 90 deg, -45 deg)\n", "exact", {}),
     ("o_toward", "orientation", "ego = new Object\nnew Object at (10, 0, 0), facing toward (Range(-5, 5), DiscreteRange(20, 21), 0)\n", "lattice", {}),
     ("o_size", "shape-size", "ego = new Object with width Range(1, 2), with length DiscreteRange(1, 3), with height Uniform(1, 2.5)\n", "lattice", {}),
     ("o_shape", "shape-size", "ego = new Object with shape Uniform(BoxShape(), SpheroidShape(), CylinderShape())\n", "exact", {}),
-    ("o_shapedim", "shape-size", "ego = new Object with shape BoxShape(dimensions=(Range(1, 2), 1, DiscreteRange(1, 2)))\n", "lattice", {}),
     ("o_choice", "object-options", "a = new Point at 1 @ 1\nb = new Point at Range(2, 3) @ 2\nego = new Object at Uniform(a, b)\n", "lattice", {}),
     ("o_rel", "objects", "ego = new Object at Range(0, 1) @ 0\nnew Object left of ego by DiscreteRange(2, 3)\nnew Object ahead of ego by Range(3, 4)\n", "lattice", {}),
     ("o_require", "require", "x = Range(0, 1)\ny = DiscreteRange(0, 3)\nrequire x > 0.35\nrequire y != 2\nego = new Object at (x, y, 0)\n", "lattice", {}),
@@ -163,7 +162,7 @@ def static_programs(tier):
         progs.extend(_atom_programs(ATOMS, SLOTS))
         progs.extend(OBJECT_PROGRAMS)
         # pairs of atoms of different kinds in one program (encoding order / sharing)
-        pair_atoms = [a for a in ATOMS if a[0] in ("i_252", "i_n15", "i_p31", "i_big", "f_unit", "c_str", "n_mix", "n_width", "n_vec", "f_normal")]
+        pair_atoms = [a for a in ATOMS if a[0] in ("i_252", "i_n15", "i_p31", "i_big", "f_unit", "c_str", "n_mix", "n_vec", "f_normal")]
         for i, a in enumerate(pair_atoms):
             for b in pair_atoms[i + 1 :]:
                 mode = "seeds" if "seeds" in (a[3], b[3]) else ("lattice" if "lattice" in (a[3], b[3]) else "exact")
@@ -214,7 +213,7 @@ def dynamic_programs(tier):
 
     # one agent, one run-time value per step
     for name, feat, expr, mode in RT_VALUES:
-        steps = 2
+        steps = 1 if name == "r_nested" else 2
         add(f"{name}/take", feat, f"behavior B():\n{_b_take(expr, steps)}ego = new Object with name 'e', with behavior B\n", mode, steps + 1)
     # value drawn once, then used; conditional termination on a run-time value
     add("r_cond/terminate", "runtime-control", "behavior B():\n    x = DiscreteRange(0, 2)\n    take Move(x)\n    if x == 1:\n        terminate\n    take Move(Uniform('u', 'vv'))\n"
@@ -233,9 +232,6 @@ def dynamic_programs(tier):
         "ego = new Object with name 'e', with behavior B(1)\nnew Object at (0, 10, 0), with name 'f', with behavior B(252)\n", "exact", 3)
     # run-time rejection
     add("r_require", "runtime-require", "behavior B():\n    x = DiscreteRange(0, 2)\n    require x != 1\n    take Move(x)\n    take Move(DiscreteRange(0, 1))\n"
-        "ego = new Object with name 'e', with behavior B\n", "exact", 3)
-    # dynamically created object
-    add("r_create", "runtime-create", "behavior B():\n    take Move(1)\n    new Object at (DiscreteRange(20, 21), 20, 0), with name 'n'\n    take Move(Uniform(1, 2))\n"
         "ego = new Object with name 'e', with behavior B\n", "exact", 3)
     # divergence programs: deterministic motion, k agents x steps
     beh = "behavior B(k):\n    while True:\n        take Move(k)\n"
